@@ -14,7 +14,7 @@ from sketchnu.heavyhitters import HeavyHitters
 RULE = (
     "(1) Zipf(1) streams (seed-derived): K in {5000,10000,20000} distinct random keys of varied length (1..72 bytes, arbitrary byte values), total "
     "N=2*10^5, inserted as add(key,count) in shuffled order into CountMinLinear(width in {32,33,48,51,64,85,100,128}, depth 8); oracle: the number of keys with "
-    "query-true > e*N/width is at most floor(K*exp(-8)), N = n_added(). (2) 20000 random keys of varied length (1..72 bytes); the column each key "
+    "query-true > e*N/width is at most floor(K*exp(-8)), N = n_added(); three more streams per pass use structured key families (see 2). (2) 20000 random keys of varied length (1..72 bytes); the column each key "
     "owns in each row is read from a probe sketch (one add to an empty sketch) for count-min linear/log16/log8 and heavy hitters at widths 16 (and "
     "7, 9, 10, 12, 15, 17, 51, 64) and depths 2..8; oracle: for every pair of rows every cell of the width x width joint histogram and every marginal lies inside the "
     "exact two-sided Binomial acceptance interval at level 1e-14 per test (lgamma-computed; total false-alarm budget < 1e-9 per run). The same "
@@ -69,10 +69,11 @@ def binom_interval(n, p, alpha):
 
 
 def _stream_task(arg):
-    seed, K, width = arg
+    seed, K, width = arg[:3]
+    keyset = arg[3] if len(arg) > 3 else "random"
     rec = common.Recorder()
     rng = np.random.default_rng(seed)
-    keys = rand_keys(rng, K)
+    keys = stem_keys(rng, K) if keyset == "stems" else rand_keys(rng, K)
     N = 200000
     H = sum(1.0 / i for i in range(1, K + 1))
     counts = [max(1, int(round(N / (i * H)))) for i in range(1, K + 1)]
@@ -90,11 +91,11 @@ def _stream_task(arg):
             bad += 1
             worst = worst or (k, c, q)
     allowed = int(math.floor(K * math.exp(-8)))
-    case = {"stream_seed": int(seed), "K": K, "width": width, "depth": 8}
+    case = {"stream_seed": int(seed), "K": K, "width": width, "depth": 8, "keyset": keyset}
     heavy = sum(1 for c in counts if c > bound)
     if bad > allowed:
         rec.violation(case, f"width={width} depth=8 K={K} N={Nn}: {bad} keys exceed true + e*N/width = {bound:.0f} (allowed {allowed} = floor(K*exp(-8))); e.g. key {worst[0][:12]!r}... true {worst[1]} estimate {worst[2]}", "depth-bound")
-    rec.case(case, heavy >= 1, ["zipf_streams", f"keys_exceeding={bad}"])
+    rec.case(case, heavy >= 1, ["zipf_streams", f"stream_keys_{keyset}", f"keys_exceeding={bad}"])
     return rec
 
 
@@ -177,6 +178,8 @@ def run(tier, seed, rec):
     for rep in range(reps):
         for K, width in [(5000, 32), (10000, 64), (20000, 128), (5000, 51), (10000, 100), (5000, 48), (5000, 85), (10000, 33)]:
             jobs.append((common.derive_seed(seed, "C14-stream", rep, K, width), K, width))
+        for K, width in [(5000, 32), (10000, 64), (5000, 100)]:
+            jobs.append((common.derive_seed(seed, "C14-stream-stems", rep, K, width), K, width, "stems"))
     common.pool_merge(_stream_task, jobs, rec)
     _KEYS2_SEED = common.derive_seed(seed, "C14-keys")
     _KEYS2 = rand_keys(np.random.default_rng(_KEYS2_SEED), 20000)
@@ -197,7 +200,7 @@ def run(tier, seed, rec):
 def replay(case):
     global _KEYS2, _KEYS3, _KEYS2_SEED
     if "stream_seed" in case:
-        r = _stream_task((case["stream_seed"], case["K"], case["width"]))
+        r = _stream_task((case["stream_seed"], case["K"], case["width"], case.get("keyset", "random")))
     else:
         _KEYS2_SEED = case["keys_seed"]
         _KEYS2 = rand_keys(np.random.default_rng(_KEYS2_SEED), 20000)
